@@ -35,6 +35,10 @@ func main() {
 		runtime.GOMAXPROCS(1)
 		schedWorker()
 		return
+	case "c11worker":
+		runtime.GOMAXPROCS(1)
+		c11Worker()
+		return
 	case "apiworker":
 		runtime.GOMAXPROCS(1)
 		apiWorker()
@@ -112,9 +116,13 @@ func devSuite(name string, secs int) {
 		}
 		seen[k] = true
 		fmt.Println("FOUND", f.V.Property, f.V.Signature, f.V.Detail)
+		var parts []string
 		for _, e := range f.Events {
-			fmt.Println("    ", e)
+			parts = append(parts, e.String())
 		}
+		file := fmt.Sprintf("/dev/shm/found-%s-%d.txt", s.Name, len(seen))
+		os.WriteFile(file, []byte(strings.Join(parts, "; ")), 0o644)
+		fmt.Printf("     path (%d events) written to %s\n", len(parts), file)
 	}
 }
 
@@ -159,6 +167,16 @@ func script(suite string, args []string) {
 		}
 		if err != nil {
 			break
+		}
+	}
+	if s.Leaf != nil && os.Getenv("VERIF_LEAF") != "" {
+		if v := s.Leaf(x.C); v != nil {
+			fmt.Println("LEAF VIOLATION", v.Property, v.Signature, v.Detail)
+		} else {
+			fmt.Println("LEAF OK")
+		}
+		if os.Getenv("VERIF_LEAF") == "dump" {
+			fmt.Print(x.C.Dump())
 		}
 	}
 	for i := range x.C.Nodes {
